@@ -507,6 +507,41 @@ fn barrel_mesh_project(seed: u64, rng: &mut Rng) -> Project {
     }
 }
 
+/// More modules than any cache is likely to be sized for (550-800 small files in short import
+/// chains, every type documented, reached through one wide entry type; sometimes one of the late
+/// modules has an error): what is emitted and reported must not depend on which of them a build
+/// happened to keep.
+fn many_modules_project(seed: u64, rng: &mut Rng) -> Project {
+    let n = rng.range(550, 800);
+    let bad = if rng.chance(1, 2) { Some(rng.range(n / 2, n - 1)) } else { None };
+    let mut files: BTreeMap<String, String> = BTreeMap::new();
+    let mut fields = vec![];
+    for i in 0..n {
+        let mut src = String::new();
+        let chained = i % 8 != 7 && i + 1 < n;
+        if chained {
+            src.push_str(&format!("import {{ M{} }} from \"./mm{}\";\n", i + 1, i + 1));
+        }
+        let body = if Some(i) == bad { format!("{{ v{}: Missing{} }}", i, i) } else if chained { format!("{{ v{}: string; next?: M{} }}", i, i + 1) } else { format!("{{ v{}: number }}", i) };
+        src.push_str(&format!("/** the module number {} says this about M{} */\nexport type M{} = {};\n", i, i, i, body));
+        files.insert(format!("/p/mm{}.ts", i), src);
+        if i % 8 == 0 {
+            fields.push(format!("a{}: M{}", i, i));
+        }
+    }
+    let imports: String = (0..n).step_by(8).map(|i| format!("import {{ M{} }} from \"./mm{}\";\n", i, i)).collect();
+    files.insert("/p/entry.ts".into(), format!("import parse from \"./gen/parser\";\n{}/** everything */\nexport type All = {{ {} }};\nparse.buildParsers<{{ All: All; First: M0 }}>();\n", imports, fields.join("; ")));
+    Project {
+        id: format!("many_{:08x}", (seed & 0xffff_ffff) as u32),
+        origin: "verif/sim/src/gen.rs many_modules_project".into(),
+        origin_kind: "synthetic".into(),
+        entry: "/p/entry.ts".into(),
+        settings: Settings { string_formats: vec![], number_formats: vec![] },
+        module: "esm".into(),
+        files,
+    }
+}
+
 /// `n` object types that all mention each other (and differ in one field): the number of simple
 /// paths through the named types grows factorially with `n`.  Used by the hash256 termination leg.
 pub fn dense_recursive_project(n: usize, style: usize) -> Project {
@@ -578,6 +613,9 @@ pub fn synthetic_project(seed: u64) -> Project {
     }
     if rng.chance(1, 40) {
         return deep_doubling_project(seed, &mut rng);
+    }
+    if rng.chance(1, 60) {
+        return many_modules_project(seed, &mut rng);
     }
     let n_types = rng.range(3, 8);
     let n_files = rng.range(1, 3);
@@ -915,6 +953,12 @@ pub fn synthetic_project(seed: u64) -> Project {
         extra_decls.push("export type UsesAmbient = { price: GlobalMoney; label?: GlobalTag };".into());
         extra_keys.push("UsesAmbient: UsesAmbient".into());
     }
+    // a JSON module (one line, negative numbers, nested arrays) used through typeof
+    let json_mod = rng.chance(1, 10);
+    if json_mod {
+        extra_decls.push("import LIMITS from \"./limits.json\";\nexport type Limits = typeof LIMITS;\nexport type LimitName = (typeof LIMITS)[\"name\"];".into());
+        extra_keys.push("Limits: Limits".into());
+    }
     let default_expr = n_files >= 2 && rng.chance(1, 5);
     if default_expr {
         extra_decls.push("import Def from \"./m1\";".into());
@@ -1110,6 +1154,17 @@ pub fn synthetic_project(seed: u64) -> Project {
         let f = rng.pick(&which).clone();
         let c = files[&f].replace('\n', "\r\n");
         files.insert(f, c);
+    }
+    if json_mod {
+        let docs = [
+            "{\"name\":\"default\",\"maxItems\":100,\"minOffset\":-1}",
+            "{\"name\":\"caf\u{e9} \u{1f600}\",\"ratio\":-0.5,\"list\":[1,-2,[3,{\"deep\":null}]],\"on\":true}\n",
+            "{\n  \"name\": \"pretty\",\n  \"maxItems\": 100,\n  \"minOffset\": -1\n}\n",
+            "{\"name\":\"plain\",\"maxItems\":100,\"tags\":[\"a\",\"b\"]}",
+            "[1, 2, -3]",
+            "{\"name\": \"broken\", }",
+        ];
+        files.insert("/p/limits.json".into(), docs[rng.below(docs.len())].into());
     }
     if ambient {
         files.insert("/p/globals.ts".into(), "type GlobalMoney = { amount: number; currency: string };\ninterface GlobalTag { tag: string }\n".into());
